@@ -1,5 +1,6 @@
 import SqlgrepModel.Drivers.C16
 import SqlgrepModel.Drivers.Eval
+import SqlgrepModel.Drivers.Run
 /- Line protocol driver: `<kind> <payload…>` per line in, one answer line out. -/
 open Sqlgrep
 
@@ -9,6 +10,8 @@ def dispatch (line : String) : String :=
     match kind with
     | "cmp3" => Drivers.C16.handle args
     | "eval" => Drivers.Eval.handle args
+    | "batch" => Drivers.Run.handleBatch args
+    | "incr" => Drivers.Run.handleIncr args
     | _ => "unknown-kind"
   | _ => "bad-line"
 
